@@ -31,6 +31,9 @@ CLAIMED = {
  "C05": ("def-use template matching on the rate-matrix construction, C3 linearisation of the model class hierarchy, literal option table, CFG path cover",
          "Static: every calcQ in the hierarchy fixes the diagonal to minus the row sums taken after all element-wise scaling and calibrates last by 1/(word_probs*row_totals).sum(); all 13 classes that declare stationarity resolve calcQ (by C3 MRO) to the implementation that scales by the motif probabilities and the 8 general ones do not; TimeReversible refuses asymmetric exchangeabilities on every path; rate-class multipliers are divided by their weighted mean; the exponentiator option table is exhaustive. Row-stochasticity, P(s+t)=P(s)P(t) and back-end agreement are numerical and not decided.",
          "Trusts python ast, the C3 implementation, that calc_exchangeability_matrix yields non-negative off-diagonals with zero diagonal."),
+ "C06": ("writer/reader literal-table and constant agreement, idiom match for record boundaries and label derivation across sibling parsers",
+         "Static: what a one-sided edit breaks is decided -- every writable format name has a parser and aliases agree, recognised and openable compression suffixes coincide, the PHYLIP name-field width/truncation equals the parser's offset, GDE/FASTA sigils and PAML/PHYLIP headers agree with their parsers, record boundaries are line-anchored in all three FASTA parsers and they derive labels and strip whitespace alike. parse(write(x)) == x for all x and chunk-size independence of line streaming are not decided.",
+         "Trusts python ast and the enumerated accepted idioms (line[0] in label_char, startswith, split on newline+sigil, anchored regex)."),
 }
 
 NOT_APPLICABLE = {
